@@ -604,7 +604,8 @@ def matchList (c : Ctx) (l : Loc) (e : Elem) : SelList → Bool
   | .mk sels isNot isHtml =>
     let c' : Ctx := if isHtml then { c with namespaces := [("html".toStr, NS_XHTML)], iframeRestrict := true } else c
     if !isHtml || c.isHtml then
-      (matchAny c' l e sels) != isNot
+      -- `match` starts as False and is only assigned inside the `for selector in selectors` loop
+      !sels.isEmpty && ((matchAny c' l e sels) != isNot)
     else false
 /-- The `for selector in selectors` loop: does some alternative match. -/
 def matchAny (c : Ctx) (l : Loc) (e : Elem) : List Sel → Bool
